@@ -625,13 +625,23 @@ def gate_simple_one_site(mk, geom, opt, inplace, wform):
             mk.eq(f"{lab}: receiver untouched", dense_vec(psi, sinds), raw_before)
 
 
-_P_GS2 = [{"geom": g, "where": w, "opt": o}
+def _gs_adjacent(geom, w):
+    return tuple(sorted(w)) in [tuple(sorted(e)) for e in _GS_EDGES[geom][0]]
+
+
+# nearest-neighbour pairs with smudge=0.0 decide in seconds (quick); the default smudge (1e-12 * max(g): one more defined
+# inverse per outer bond) costs ~10x and the longer-range route chains 3 SVDs + 2 QRs (certificate search in minutes or
+# not at all): thorough tier, not mandatory - like the chained MPS modes of gate_mps_modes
+_P_GS2 = [{"geom": g, "where": w, "opt": o, "smudge": sm,
+           "_tiers": ("quick", "thorough") if (_gs_adjacent(g, w) and sm == 0.0) else ("thorough",),
+           "_mandatory": _gs_adjacent(g, w)}
           for g, ws in (("chain", _wheres(3, 2)),)
-          for w in ws for o in _GS_OPTS]
+          for w in ws for o in _GS_OPTS for sm in (0.0, "default")
+          if not (sm == "default" and not _gs_adjacent(g, w))]
 
 
 @obligation(PROP, params=_P_GS2, rounds=2, timeout_s=400, wall_s=300, max_rows=80000)
-def gate_simple_two_site(mk, geom, where, opt):
+def gate_simple_two_site(mk, geom, where, opt, smudge):
     """gate_simple_ with a TWO-site gate on a gauged state (symbolic positive gauge on every bond): nearest-neighbour
     pairs (reduced split of the gauged pair) and longer-range pairs (gate routed along the connecting path), both site
     orders, plain / transpose / dagger, no truncation, renorm=False: the physical state (NEW gauges re-absorbed) equals
@@ -646,8 +656,12 @@ def gate_simple_two_site(mk, geom, where, opt):
     before = physical_dense(psi, g0, sinds).reshape(-1)
     G = mk.array("G", (4, 4), "real")
     G0 = G.copy()
-    out = psi.gate_simple_(G, where, gauges, cutoff=0.0, renorm=False, smudge=0.0, **_GS_OPTS[opt])
+    kw = dict(_GS_OPTS[opt])
+    if smudge != "default":
+        kw["smudge"] = smudge
+    out = psi.gate_simple_(G, where, gauges, cutoff=0.0, renorm=False, **kw)
     lab = f"gate_simple_({opt}) where={where}"
+    mk.same(f"{lab}: tensors keep their site tags only (no temporary tags left)", [set(t.tags) for t in out], [{f"I{i}"} for i in range(n)])
     mk.same(f"{lab}: returns the receiver", out is psi, True)
     mk.same(f"{lab}: outer labels unchanged", set(out.outer_inds()), set(sinds))
     mk.same(f"{lab}: same bonds, each with a gauge of the bond's size", {k: tuple(np.shape(v)) for k, v in gauges.items()},
@@ -659,4 +673,86 @@ def gate_simple_two_site(mk, geom, where, opt):
     path_bonds = {f"b{min(e)}{max(e)}" for e in edges if min(e) >= min(where) and max(e) <= max(where)} if geom == "chain" else None
     for k in g0:
         if path_bonds is not None and k not in path_bonds:
+            mk.eq(f"{lab}: gauge on {k} (away from the gate) unchanged", gauges[k], g0[k])
+
+
+@obligation(PROP, params=[{"geom": g, "where": w, "opt": o, "path": p}
+                          for g, w in (("chain", (0, 2)), ("chain", (2, 0)), ("star", (0, 3)), ("star", (3, 2)))
+                          for o in _GS_OPTS for p in (None, "sites")],
+            numeric_required=True, num_trials=3)
+def gate_simple_long_range_plumbing(mk, geom, where, opt, path):
+    """gate_simple_ on a NON-adjacent pair (gate routed along the connecting path, default path and explicit site path).
+    The chained factorisations (3 SVD + 2 QR) put the value identity beyond the certificate search of the quick tier, so
+    here the real routine runs on symbolic arrays for the label / tag / gauge-store plumbing only (solver-free structural
+    goals: outer labels, one tensor per site, site tags, no temporary tags left, gauge store keyed by exactly the bonds
+    with vectors of the bond sizes); the VALUE goal of this obligation is a NUMERIC-ONLY SUPPLEMENT (3 random points);
+    the symbolic value goal is gate_simple_two_site[... non-adjacent where ...] in the thorough tier"""
+    mk.encodes(ag.tensor_network_ag_gate_simple, ag.tensor_network_ag_gate_simple_long_range)
+    edges, n = _GS_EDGES[geom]
+    psi, dims = gen_vector(mk, edges, n, "real")
+    sinds = [psi.site_ind(i) for i in range(n)]
+    tags0 = [set(t.tags) for t in psi]
+    inds0 = [set(t.inds) for t in psi]
+    gauges = sym_gauges(mk, psi)
+    g0 = {k: np.array(v, copy=True) for k, v in gauges.items()}
+    G = mk.array("G", (4, 4), "real")
+    G0 = G.copy()
+    kw = dict(_GS_OPTS[opt])
+    if path == "sites":
+        kw["path"] = (where[0], 1, where[1])          # node 1 is the hub of both geometries
+    if not mk.sym:
+        before = physical_dense(psi, g0, sinds).reshape(-1)
+    old = dict(stubs.OPTIONS)
+    stubs.OPTIONS["contracts"] = False        # structural goals only: fresh factors of the right shapes, NO contract assumed
+    try:
+        out = psi.gate_simple_(G, where, gauges, cutoff=0.0, renorm=False, smudge=0.0, **kw)
+    finally:
+        stubs.OPTIONS.update(old)
+    lab = f"gate_simple_({opt}) long-range where={where} path={path}"
+    mk.same(f"{lab}: returns the receiver", out is psi, True)
+    mk.same(f"{lab}: outer labels unchanged", set(out.outer_inds()), set(sinds))
+    mk.same(f"{lab}: tensors keep their labels and tags (no temporary tags left)", ([set(t.inds) for t in out], [set(t.tags) for t in out]), (inds0, tags0))
+    mk.same(f"{lab}: gauge store keyed by exactly the bonds, vectors of the bond sizes", {k: tuple(np.shape(v)) for k, v in gauges.items()},
+            {k: (out.ind_size(k),) for k in g0})
+    if not mk.sym:
+        # NUMERIC-ONLY SUPPLEMENT (see docstring)
+        want = ref.matmul(ref.embed(_gs_matrix(G0, opt), dims, where), before)
+        mk.eq(f"{lab}: [numeric-only supplement] physical state == (G on {where}) @ physical state", physical_dense(out, gauges, sinds).reshape(-1), want)
+        mk.eq(f"{lab}: [numeric-only supplement] G not modified", G, G0)
+        for k in g0:
+            if geom == "star" and k not in (f"b{min(1, w)}{max(1, w)}" for w in where):
+                mk.eq(f"{lab}: [numeric-only supplement] gauge on {k} (off the path) unchanged", gauges[k], g0[k])
+
+
+@obligation(PROP, params=[{"where": w, "opt": o, "_tiers": ("quick", "thorough") if (w, o) in (((0, 1), "plain"), ((2, 1), "transpose")) else ("thorough",)}
+                          for w in ((0, 1), (1, 0), (1, 2), (2, 1)) for o in _GS_OPTS],
+            rounds=2, timeout_s=400, wall_s=300, max_rows=80000)
+def gate_simple_renorm(mk, where, opt):
+    """gate_simple_ with the DEFAULT renorm=True on a nearest-neighbour pair: the new bond gauge is the vector of new
+    singular values s (reported through ``info``) scaled to unit norm, and the physical state is the gated one up to that
+    same scale - stated without square roots: gauge[k] * s[0] == s[k] * gauge[0], sum gauge^2 == 1,
+    physical_after * s[0] == gauge[0] * (G on where) @ physical_before"""
+    mk.encodes(ag.tensor_network_ag_gate_simple, ag.tensor_network_ag_gate)
+    edges, n = _GS_EDGES["chain"]
+    psi, dims = gen_vector(mk, edges, n, "real")
+    sinds = [psi.site_ind(i) for i in range(n)]
+    gauges = sym_gauges(mk, psi)
+    g0 = {k: np.array(v, copy=True) for k, v in gauges.items()}
+    before = physical_dense(psi, g0, sinds).reshape(-1)
+    G = mk.array("G", (4, 4), "real")
+    info = {}
+    out = psi.gate_simple_(G, where, gauges, cutoff=0.0, smudge=0.0, info=info, **_GS_OPTS[opt])
+    bond = f"b{min(where)}{max(where)}"
+    lab = f"gate_simple_({opt}, renorm) where={where}"
+    mk.same(f"{lab}: new singular values of the gated bond reported in info", list(info), [("singular_values", bond)])
+    s = np.asarray(info["singular_values", bond])
+    g = np.asarray(gauges[bond])
+    mk.same(f"{lab}: gauge vector has the bond's size", (tuple(g.shape), tuple(s.shape)), ((out.ind_size(bond),),) * 2)
+    mk.eq(f"{lab}: new gauge proportional to the new singular values", [g[k] * s[0] for k in range(len(g))], [s[k] * g[0] for k in range(len(g))])
+    mk.eq(f"{lab}: new gauge has unit norm", sum(x * x for x in g), 1)
+    want = ref.matmul(ref.embed(_gs_matrix(G, opt), dims, where), before)
+    got = physical_dense(out, gauges, sinds).reshape(-1)
+    mk.eq(f"{lab}: physical state * s[0] == gauge[0] * (G on {where}) @ physical state", [x * s[0] for x in got], [x * g[0] for x in want])
+    for k in g0:
+        if k != bond:
             mk.eq(f"{lab}: gauge on {k} (away from the gate) unchanged", gauges[k], g0[k])
